@@ -264,6 +264,11 @@ pub struct ScriptedCase {
     pub script: Script,
     pub cfg: OptCfg,
     pub via_api: bool,
+    /// parameters handed out a second time by generate_basis(): (index, fraction of its range
+    /// the extra handle may use) - the type allows several handles on one value, e.g. a coarse
+    /// and a fine one, or a parameter listed twice to be moved more often
+    #[serde(default)]
+    pub aliases: Vec<(usize, f64)>,
 }
 
 pub fn run_scripted(c: &ScriptedCase, keep_log: bool) -> RunReport {
@@ -275,7 +280,8 @@ pub fn run_scripted(c: &ScriptedCase, keep_log: bool) -> RunReport {
     }
     let sink = Arc::new(Mutex::new(ScriptedSinkImpl { mon, labels: vec![], log: vec![], keep_log }));
     let dynsink: Arc<Mutex<dyn ScriptSink>> = sink.clone();
-    let state = Scripted::new(&c.init, &c.bounds, c.script.clone(), dynsink);
+    let mut state = Scripted::new(&c.init, &c.bounds, c.script.clone(), dynsink);
+    state.aliases = c.aliases.clone();
     let builder = if c.via_api { Ok(c.cfg.builder_api()) } else { c.cfg.builder() };
     let res = match builder {
         Err(e) => Err(format!("configuration rejected by the argument parser: {}", e)),
@@ -283,7 +289,10 @@ pub fn run_scripted(c: &ScriptedCase, keep_log: bool) -> RunReport {
             let opt = b.build();
             used_before(&c.cfg, &opt);
             let out = opt.optimise_state(state);
-            params_of(&out)
+            // (one value per parameter: extra handles on the same parameter come last)
+            let mut v = params_of(&out);
+            v.truncate(k);
+            v
         }))
         .map_err(panic_message),
     };
@@ -496,7 +505,14 @@ pub fn rand_scripted_case<R: Rng>(rng: &mut R, kt_start: f64, max_steps: u64) ->
         // bounds hit on (nearly) every move
         cfg.max_step_size = 1.;
     }
-    ScriptedCase { init, bounds, script: rand_script(rng), cfg, via_api: rng.gen_bool(0.3) }
+    ScriptedCase {
+        aliases: if rng.gen_range(0, 6) == 0 { (0..rng.gen_range(1, 3)).map(|_| (rng.gen_range(0, k), 1.)).collect() } else { vec![] },
+        init,
+        bounds,
+        script: rand_script(rng),
+        cfg,
+        via_api: rng.gen_bool(0.3),
+    }
 }
 
 /// With probability `p`, move one parameter's starting value outside its declared range (as
@@ -659,7 +675,8 @@ pub fn run_probe(c: &ScriptedCase, with_monitor: bool) -> ProbeReport {
     };
     let sink = Arc::new(Mutex::new(ProbeSink { tally: ProbeTally::default(), mon: if with_monitor { Some(TraceMonitor::new(k)) } else { None }, labels: vec![], inner, last_anchor: None, pending: None }));
     let dynsink: Arc<Mutex<dyn ScriptSink>> = sink.clone();
-    let state = Scripted::new(&c.init, &c.bounds, c.script.clone(), dynsink);
+    let mut state = Scripted::new(&c.init, &c.bounds, c.script.clone(), dynsink);
+    state.aliases = c.aliases.clone();
     let builder = if c.via_api { Ok(c.cfg.builder_api()) } else { c.cfg.builder() };
     let res = match builder {
         Err(e) => Err(format!("configuration rejected by the argument parser: {}", e)),
